@@ -324,6 +324,24 @@ def drop_fn(msg):
     return short_fn(sel)
 
 
+def stability_pass(ur, ucfg):
+    """thorough tier: re-verify the generated unit from scratch (no result cache) with every function in its own solver instance and another
+    random seed; report the relevant functions whose verdict differs from the quick run. A proof that only goes through in one solver context is
+    brittle (DESIGN 9.3, whole-file instability); this never changes the verdict, it is recorded in the evidence."""
+    path = os.path.join(BUILD, ur.unit, ur.unit + '.rs')
+    r2 = run_verus(path, 20, 10, 3600, False, ('--num-threads', '12', '-V', 'spinoff-all', '--smt-option', 'smt.random_seed=7'))
+    base = {fb['function']: fb['success'] for fb in ur.run.functions}
+    diff = []
+    for fb in r2.functions:
+        nm = fb['function'].split('::', 1)[1] if '::' in fb['function'] else fb['function']
+        if not fn_relevant(ucfg, nm):
+            continue
+        if fb['function'] in base and base[fb['function']] != fb['success']:
+            diff.append({'fn': fb['function'], 'quick': base[fb['function']], 'spinoff_seed7': fb['success']})
+    return {'unit': ur.unit, 'cmd': r2.cmd, 'wall_s': round(r2.wall_s, 1), 'functions': len(r2.functions), 'smt_ms': r2.smt_ms,
+            'verdict_differs': diff, 'rejected': bool(r2.compile_errors), 'resource': [x['message'][:120] for x in r2.resource]}
+
+
 def relevant(prop, spec, unit, fail):
     """does a failure in `unit` count against property `prop`?"""
     ucfg = spec['units'][unit] if isinstance(spec['units'], dict) else {}
@@ -375,6 +393,11 @@ def check_property(prop, tier='quick'):
     violations = []
     known_hits = []
     fn_rows = []
+    stability = []
+    if tier == 'thorough':
+        for ur in results:
+            if not ur.error and not ur.run.compile_errors:
+                stability.append(stability_pass(ur, spec['units'][ur.unit] if isinstance(spec['units'], dict) else {}))
     trusted = []
     rewrites = {}
     manual = []
@@ -550,6 +573,7 @@ def check_property(prop, tier='quick'):
             'bounded': extra.get('kani', {}).get('bounded', []) if extra else [],
             'kani': extra.get('kani'),
             'known_findings_reported': [{'obligation': f['obligation'], 'what': kf.get('what', '')} for kf, f in known_hits],
+            'thorough_stability_pass': stability,
             'undecided': undecided,
             'samples': samples or [{'note': 'no contracted function extracted'}],
         },
